@@ -16,14 +16,13 @@ fn c16_comprehension_required_all_types() {
     kani::cover!(t == 0x8000);
 }
 
-/// verdict of check_attribute_types on a symbolic accepted REQUEST (<= 2 attributes) for symbolic
-/// supported / required lists (<= 2 entries each) against the stand-alone oracle; the returned
-/// builder's class/method/transaction id and attribute set
-#[kani::proof]
-#[kani::unwind(5)]
-#[kani::stub(stun_types::attribute::Fingerprint::compute, crc_stub)]
-fn c16_verdict() {
-    prelude!(28, buf, len, probe, q, data, res, r);
+/// verdict of check_attribute_types on a symbolic accepted REQUEST for symbolic supported /
+/// required lists (<= 2 entries each) against the stand-alone oracle.  REC = true: the two
+/// response constructors are recorder stubs (see stubs.rs), the verdict logic is the real code and
+/// the list handed to `unknown_attributes` is compared entry by entry, in message order;
+/// REC = false (thorough tier): everything real, the returned builder is inspected.
+fn verdict<const N: usize, const REC: bool>() {
+    prelude!(N, buf, len, probe, q, data, res, r);
     let sup: [u16; 2] = kani::any();
     let req: [u16; 2] = kani::any();
     let ns: usize = kani::any();
@@ -46,11 +45,11 @@ fn c16_verdict() {
                 }
                 p
             };
-            let mut unknown = [0u16; 2];
+            let mut unknown = [0u16; 4];
             let mut nu = 0;
             let mut k = 0;
             while k < r.n {
-                if r.exposed[k] && r.typ[k] < 0x8000 && !supported(r.typ[k]) && nu < 2 {
+                if r.exposed[k] && r.typ[k] < 0x8000 && !supported(r.typ[k]) && nu < 4 {
                     unknown[nu] = r.typ[k];
                     nu += 1;
                 }
@@ -67,9 +66,37 @@ fn c16_verdict() {
                     assert!(nu > 0 || missing, "C16:error-response-without-cause");
                     assert!(b.has_class(MessageClass::Error), "C16:error-response-class");
                     assert!(b.transaction_id() == msg.transaction_id(), "C16:error-response-transaction-id");
-                    assert!(b.has_attribute(AttributeType::new(0x0009)), "C16:error-response-without-error-code");
-                    // 420 carries UNKNOWN-ATTRIBUTES, 400 does not; 420 takes precedence
-                    assert!(b.has_attribute(AttributeType::new(0x000A)) == (nu > 0), "C16:unknown-attributes-iff-420");
+                    if REC && !NATIVE {
+                        let p = unsafe { &POLICE };
+                        // 420 takes precedence over 400; exactly one constructor call
+                        assert!((p.ua_calls == 1) == (nu > 0) && p.ua_calls <= 1, "C16:420-iff-unsupported-comprehension-required-type");
+                        assert!((p.br_calls == 1) == (nu == 0) && p.br_calls <= 1, "C16:400-iff-only-a-required-type-is-missing");
+                        if nu > 0 {
+                            assert!(p.ua_n == nu, "C16:unknown-attributes-list-is-not-exactly-the-unsupported-types");
+                            let mut i = 0;
+                            while i < nu {
+                                assert!(p.ua[i] == unknown[i], "C16:unknown-attributes-list-order-or-content");
+                                i += 1;
+                            }
+                        }
+                    } else {
+                        assert!(b.has_attribute(AttributeType::new(0x0009)), "C16:error-response-without-error-code");
+                        // 420 carries UNKNOWN-ATTRIBUTES, 400 does not; 420 takes precedence
+                        assert!(b.has_attribute(AttributeType::new(0x000A)) == (nu > 0), "C16:unknown-attributes-iff-420");
+                        if NATIVE && nu > 0 {
+                            // native replay of a counterexample found with the recorder stubs
+                            let bytes = b.build();
+                            let m = Message::from_bytes(&bytes).unwrap();
+                            let ua = m.attribute::<UnknownAttributes>().unwrap();
+                            let raw = ua.to_raw();
+                            assert!(raw.value.len() == 2 * nu, "C16:unknown-attributes-list-is-not-exactly-the-unsupported-types");
+                            let mut i = 0;
+                            while i < nu {
+                                assert!(be16(&raw.value, 2 * i) as u16 == unknown[i], "C16:unknown-attributes-list-order-or-content");
+                                i += 1;
+                            }
+                        }
+                    }
                 }
             }
             kani::cover!(nu == 2 && out.is_some());
@@ -78,6 +105,120 @@ fn c16_verdict() {
             std::mem::forget(out);
         }
     }
+}
+
+// at most 2 attributes in 28 bytes, lists of at most 2 entries: the loops of the policing nest get
+// bound 3 through --unwindset (registry)
+#[kani::proof]
+#[kani::unwind(5)]
+#[kani::stub(stun_types::attribute::Fingerprint::compute, crc_stub)]
+#[kani::stub(stun_types::message::Message::unknown_attributes, unknown_attributes_stub)]
+#[kani::stub(stun_types::message::Message::bad_request, bad_request_stub)]
+fn c16_verdict_rec_28() {
+    verdict::<28, true>();
+}
+
+/// fixed layout [header, A (empty), B (empty)] of a request with symbolic method, id and
+/// attribute types A, B (any type but the seals), symbolic supported (<= 2) and required (<= 1)
+/// lists: verdict, 420-before-400, and the list handed to `unknown_attributes` in MESSAGE order.
+/// No reference decoder and no symbolic lengths, so it is cheap enough for the quick tier.
+#[kani::proof]
+#[kani::unwind(4)]
+#[kani::stub(stun_types::message::Message::unknown_attributes, unknown_attributes_stub)]
+#[kani::stub(stun_types::message::Message::bad_request, bad_request_stub)]
+fn c16_two_attrs_rec() {
+    let m: u16 = kani::any();
+    kani::assume(m <= 0xfff);
+    let t: u128 = kani::any();
+    let a: u16 = kani::any();
+    let b: u16 = kani::any();
+    kani::assume(a != T_MI && a != T_SHA && a != T_FP && b != T_MI && b != T_SHA && b != T_FP);
+    let hdr = crate::agentworld::header_msg(0, m, t.into());
+    let mut buf = [0u8; 28];
+    buf[..20].copy_from_slice(&hdr);
+    buf[3] = 8;
+    buf[20] = (a >> 8) as u8;
+    buf[21] = a as u8;
+    buf[24] = (b >> 8) as u8;
+    buf[25] = b as u8;
+    let msg = Message::from_bytes(&buf).unwrap();
+    let sup: [u16; 2] = kani::any();
+    let req: u16 = kani::any();
+    let ns: usize = kani::any();
+    let nr: usize = kani::any();
+    kani::assume(ns <= 2 && nr <= 1);
+    let supt = [AttributeType::new(sup[0]), AttributeType::new(sup[1])];
+    let reqt = [AttributeType::new(req)];
+    let supported = |x: u16| (ns >= 1 && sup[0] == x) || (ns >= 2 && sup[1] == x);
+    let mut unknown = [0u16; 2];
+    let mut nu = 0;
+    if a < 0x8000 && !supported(a) {
+        unknown[nu] = a;
+        nu += 1;
+    }
+    if b < 0x8000 && !supported(b) {
+        unknown[nu] = b;
+        nu += 1;
+    }
+    let missing = nr == 1 && req != a && req != b;
+    let out = Message::check_attribute_types(&msg, &supt[..ns], &reqt[..nr]);
+    match &out {
+        None => {
+            assert!(nu == 0, "C16:unsupported-comprehension-required-attribute-not-reported");
+            assert!(!missing, "C16:missing-required-attribute-not-reported");
+        }
+        Some(bd) => {
+            assert!(nu > 0 || missing, "C16:error-response-without-cause");
+            assert!(bd.has_class(MessageClass::Error), "C16:error-response-class");
+            if !NATIVE {
+                // (with the recorder stubs the builder is the bare builder_error(request): 20 bytes)
+                let hb = bd.build();
+                let ty = rfc_type(3, m);
+                assert!(hb[0] == (ty >> 8) as u8 && hb[1] == ty as u8, "C16:error-response-method");
+            }
+            assert!(bd.transaction_id() == msg.transaction_id(), "C16:error-response-transaction-id");
+            if !NATIVE {
+                let p = unsafe { &POLICE };
+                assert!((p.ua_calls == 1) == (nu > 0) && p.ua_calls <= 1, "C16:420-iff-unsupported-comprehension-required-type");
+                assert!((p.br_calls == 1) == (nu == 0) && p.br_calls <= 1, "C16:400-iff-only-a-required-type-is-missing");
+                if nu > 0 {
+                    assert!(p.ua_n == nu, "C16:unknown-attributes-list-is-not-exactly-the-unsupported-types");
+                    assert!(p.ua[0] == unknown[0] && (nu < 2 || p.ua[1] == unknown[1]), "C16:unknown-attributes-list-order-or-content");
+                }
+            } else {
+                let bytes = bd.build();
+                let mm = Message::from_bytes(&bytes).unwrap();
+                let code = mm.attribute::<ErrorCode>().unwrap().code();
+                assert!(code == if nu > 0 { 420 } else { 400 }, "C16:420-iff-unsupported-comprehension-required-type");
+                if nu > 0 {
+                    let ua = mm.attribute::<UnknownAttributes>().unwrap();
+                    let raw = ua.to_raw();
+                    assert!(raw.value.len() == 2 * nu, "C16:unknown-attributes-list-is-not-exactly-the-unsupported-types");
+                    assert!(be16(&raw.value, 0) as u16 == unknown[0] && (nu < 2 || be16(&raw.value, 2) as u16 == unknown[1]), "C16:unknown-attributes-list-order-or-content");
+                }
+            }
+        }
+    }
+    kani::cover!(nu == 2 && a > b);
+    kani::cover!(nu == 0 && missing);
+    kani::cover!(out.is_none() && nr == 1);
+    std::mem::forget(out);
+}
+
+#[kani::proof]
+#[kani::unwind(5)]
+#[kani::stub(stun_types::attribute::Fingerprint::compute, crc_stub)]
+#[kani::stub(stun_types::message::Message::unknown_attributes, unknown_attributes_stub)]
+#[kani::stub(stun_types::message::Message::bad_request, bad_request_stub)]
+fn c16_verdict_rec_32() {
+    verdict::<32, true>();
+}
+
+#[kani::proof]
+#[kani::unwind(5)]
+#[kani::stub(stun_types::attribute::Fingerprint::compute, crc_stub)]
+fn c16_verdict() {
+    verdict::<28, false>();
 }
 
 fn parse_back(bytes: &[u8], want_code: u16, method: u16, tid: TransactionId, unknown: &[u16]) {
@@ -161,4 +302,80 @@ fn c16_error_attributes_wire() {
     assert!(r.get_type() == AttributeType::new(0x000A) && r.value.len() == 4, "C16:unknown-attributes-wire");
     assert!(be16(&r.value, 0) as u16 == a && be16(&r.value, 2) as u16 == b, "C16:unknown-attributes-order");
     assert!(u.has_attribute(AttributeType::new(a)) && u.has_attribute(AttributeType::new(b)), "C16:unknown-attributes-membership");
+}
+
+/// quick tier: a FIXED request [header, PRIORITY(0x0024), USERNAME(0x0006), SOFTWARE(0x8022)] (empty
+/// values; concrete bytes, so the attribute walk folds away) policed with EVERY supported list of
+/// <= 2 types and every required list of <= 1 type: verdict, 420 before 400, and the list handed to
+/// `unknown_attributes` in MESSAGE order (0x0024 before 0x0006: not ascending).  The same
+/// assertions over symbolic requests are c16_two_attrs_rec / c16_verdict_rec_28 (22+ min: thorough).
+#[kani::proof]
+#[kani::unwind(5)]
+#[kani::stub(stun_types::message::Message::unknown_attributes, unknown_attributes_stub)]
+#[kani::stub(stun_types::message::Message::bad_request, bad_request_stub)]
+fn c16_fixed_request_rec() {
+    let hdr = crate::agentworld::header_msg(0, 0x001, crate::agentworld::tid(1));
+    let mut buf = [0u8; 32];
+    buf[..20].copy_from_slice(&hdr);
+    buf[3] = 12;
+    buf[21] = 0x24;
+    buf[25] = 0x06;
+    buf[28] = 0x80;
+    buf[29] = 0x22;
+    let msg = Message::from_bytes(&buf).unwrap();
+    let sup: [u16; 2] = kani::any();
+    let req: u16 = kani::any();
+    let ns: usize = kani::any();
+    let nr: usize = kani::any();
+    kani::assume(ns <= 2 && nr <= 1);
+    let supt = [AttributeType::new(sup[0]), AttributeType::new(sup[1])];
+    let reqt = [AttributeType::new(req)];
+    let supported = |x: u16| (ns >= 1 && sup[0] == x) || (ns >= 2 && sup[1] == x);
+    let mut unknown = [0u16; 2];
+    let mut nu = 0;
+    if !supported(0x0024) {
+        unknown[nu] = 0x0024;
+        nu += 1;
+    }
+    if !supported(0x0006) {
+        unknown[nu] = 0x0006;
+        nu += 1;
+    }
+    let missing = nr == 1 && req != 0x0024 && req != 0x0006 && req != 0x8022;
+    let out = Message::check_attribute_types(&msg, &supt[..ns], &reqt[..nr]);
+    match &out {
+        None => {
+            assert!(nu == 0, "C16:unsupported-comprehension-required-attribute-not-reported");
+            assert!(!missing, "C16:missing-required-attribute-not-reported");
+        }
+        Some(bd) => {
+            assert!(nu > 0 || missing, "C16:error-response-without-cause");
+            assert!(bd.has_class(MessageClass::Error), "C16:error-response-class");
+            assert!(bd.transaction_id() == msg.transaction_id(), "C16:error-response-transaction-id");
+            if !NATIVE {
+                let p = unsafe { &POLICE };
+                assert!((p.ua_calls == 1) == (nu > 0) && p.ua_calls <= 1, "C16:420-iff-unsupported-comprehension-required-type");
+                assert!((p.br_calls == 1) == (nu == 0) && p.br_calls <= 1, "C16:400-iff-only-a-required-type-is-missing");
+                if nu > 0 {
+                    assert!(p.ua_n == nu, "C16:unknown-attributes-list-is-not-exactly-the-unsupported-types");
+                    assert!(p.ua[0] == unknown[0] && (nu < 2 || p.ua[1] == unknown[1]), "C16:unknown-attributes-list-order-or-content");
+                }
+            } else {
+                let bytes = bd.build();
+                let mm = Message::from_bytes(&bytes).unwrap();
+                let code = mm.attribute::<ErrorCode>().unwrap().code();
+                assert!(code == if nu > 0 { 420 } else { 400 }, "C16:420-iff-unsupported-comprehension-required-type");
+                if nu > 0 {
+                    let ua = mm.attribute::<UnknownAttributes>().unwrap();
+                    let raw = ua.to_raw();
+                    assert!(raw.value.len() == 2 * nu, "C16:unknown-attributes-list-is-not-exactly-the-unsupported-types");
+                    assert!(be16(&raw.value, 0) as u16 == unknown[0] && (nu < 2 || be16(&raw.value, 2) as u16 == unknown[1]), "C16:unknown-attributes-list-order-or-content");
+                }
+            }
+        }
+    }
+    kani::cover!(nu == 2);
+    kani::cover!(nu == 0 && missing);
+    kani::cover!(out.is_none() && nr == 1);
+    std::mem::forget(out);
 }
